@@ -30,7 +30,7 @@ def gen(tier, seed):
     for t in csvgen.all_strings(csvgen.JS_ALPHABET, 4):
         cases.append(('all', 'quoted', 'utf-8', True, 'n', ',', '#', t, t.encode('utf-8')))
         cases.append(('all', 'quoted_rfc', 'latin-1', True, 'N', ',', None, t, t.encode('latin-1')))
-    units = ['é', '中', '\U0001F600', '﻿', ',', '\n', '\r', 'a', '"']
+    units = ['é', '中', '\U0001F600', '﻿', ',', '\n', '\r', 'a', '"', '\ufffd']      # U+FFFD itself is valid input (EF BF BD)
     maxbytes = 7 if tier == 'quick' else 9
     for k in range(1, 4):
         for tup in itertools.product(units, repeat=k):
@@ -116,7 +116,7 @@ def byte_level_lines(tier, seed):
     of length <= n over boundary bytes; (2) byte chunks -> decoder -> stream reader (model) against the real reader on the same
     byte chunks: random CSV texts with multi-byte characters, cut at random BYTE positions, sometimes damaged."""
     from common import enc_list
-    bs = [0x0a, 0x0d, 0x22, 0x2c, 0x61, 0x7f, 0x80, 0xbf, 0xc2, 0xc3, 0xa9, 0xe0, 0xa0, 0xe4, 0xb8, 0xad, 0xed, 0x9f, 0xef, 0xbb, 0xf0, 0x90, 0x9f, 0x98, 0xf4, 0x8f, 0xff]
+    bs = [0x0a, 0x0d, 0x22, 0x2c, 0x61, 0x7f, 0x80, 0xbf, 0xc2, 0xc3, 0xa9, 0xe0, 0xa0, 0xe4, 0xb8, 0xad, 0xed, 0x9f, 0xef, 0xbb, 0xbd, 0xf0, 0x90, 0x9f, 0x98, 0xf4, 0x8f, 0xff]
     rnd = random.Random(seed * 1299709 + 20)
     lines = []
     as_str = lambda b: ''.join(chr(x) for x in b)
@@ -134,9 +134,9 @@ def byte_level_lines(tier, seed):
                         chunks.append(data[start:i]); start = i
                 chunks.append(data[start:])
                 lines.append('utf8dec ' + enc_list([as_str(c) for c in chunks]))
-    texts = ['é,中\n😀,"a\r\nb"\n', 'id,naïve\r\n1,日本語\r\n', '\ufeffx,y\n#c\n1,2\n', 'a\r', '"é\n""中""",z', '😀😀\n😀']
+    texts = ['é,中\n😀,"a\r\nb"\n', 'id,naïve\r\n1,日本語\r\n', '\ufeffx,y\n#c\n1,2\n', 'a\r', '"é\n""中""",z', '😀😀\n😀', 'a\ufffdb,\ufffd\n\ufffd', '\ufffd']
     for _ in range(400 if tier == 'quick' else 6000):
-        t = rnd.choice(texts) if rnd.random() < 0.5 else ''.join(rnd.choice(['a', ',', '"', '\n', '\r', 'é', '中', '😀', '#', ' ']) for _i in range(rnd.randint(0, 9)))
+        t = rnd.choice(texts) if rnd.random() < 0.5 else ''.join(rnd.choice(['a', ',', '"', '\n', '\r', 'é', '中', '😀', '#', ' ', '\ufffd']) for _i in range(rnd.randint(0, 9)))
         data = bytearray(t.encode('utf-8'))
         if rnd.random() < 0.25 and data:
             pos = rnd.randrange(len(data) + 1)
